@@ -87,7 +87,7 @@ def check_moves(moves, free, width):
                                       and not _has_leaf_scratch(moves, "i"))
     for s, d in moves:
         if regs[d] != init[s]:
-            return {"moves": moves, "free": free, "width": width, "inputs": {"int_cycle_of_3_or_more_without_scratch": long_int_cycle_without_scratch}, "emitted": [o.name + str([x.type.register_name.data for x in o.operands]) + "->" +
+            return {"moves": moves, "free": free, "width": width, "inputs": {"int_cycle_of_3_or_more_without_scratch": long_int_cycle_without_scratch, "failing_destination_is_a_self_move": s == d}, "emitted": [o.name + str([x.type.register_name.data for x in o.operands]) + "->" +
                     str([x.type.register_name.data for x in o.results]) for o in module.body.block.ops if o.name.startswith("riscv")],
                     "why": f"after the sequence {d} holds {sorted(regs[d])}, expected the old value of {s}", "key": "C20/simultaneous-assignment"}
     dsts = {d for _, d in moves}
